@@ -67,6 +67,39 @@ def run(chk, tier, seed):
         for i, c in enumerate(hcases):
             p = c07.build_hostile(c, os.path.join(scratch, "hostile%d" % i), rnd)
             items.append(("hostile-%d" % i, p, [["cat"], ["info", "#.*"], ["sector-map"], ["show-titles"]]))
+        # an HFEv3 image that uses SKIPBITS in the one form the interpreter decodes consistently (two half-byte skips whose
+        # operands carry the cells): verbose mode walks through extra code in the skip loop
+        import mkflux
+        img = mkdisc.surface_dfs(400, 45, title=b"SKIPPAIR", entries=[mkdisc.entry("A", length=700, start=390)])
+        hp = mkflux.image_to_flux(bytes(img), 40, 10, "FM", "hfe", os.path.join(scratch, "skippair.hfe"), version=3)
+        raw = bytearray(open(hp, "rb").read())
+        pair = bytes([mkflux.rev8(0xF3), mkflux.rev8(0x04), mkflux.rev8(0xF3), mkflux.rev8(0x04)])
+        done = 0
+        pos = 1024 + 600
+        while done < 6 and pos < len(raw) - 2048:
+            blk = (pos - 1024) // 256
+            # side-0 blocks only (even 256-byte blocks of the track data), keep the 4 bytes inside one block
+            if blk % 2 == 0 and raw[pos] == mkflux.rev8(0x44) and (pos - 1024) % 256 < 250 and raw[pos + 1:pos + 4] == bytes([0, 0, 0]) is False:
+                pass
+            pos += 1
+        # simpler and exact: rebuild the track streams with the pair substituted for a cell byte of value 0x44 (logical order)
+        def ops_pair(t, s_, n):
+            return []
+        sides = [[]]
+        for t in range(40):
+            secs = {r: bytes(img[(t * 10 + r) * 256:(t * 10 + r + 1) * 256]) for r in range(10)}
+            st = bytearray(mkflux.hfe_side_stream(mkflux.build_track("FM", t, 0, secs)))
+            out = bytearray()
+            replaced = 0
+            for i, b in enumerate(st):
+                if b == mkflux.rev8(0x44) and replaced < 3 and i > 300 and len(out) % 256 < 250 and t % 4 == 1:
+                    out += pair
+                    replaced += 1
+                else:
+                    out.append(b)
+            sides[0].append(bytes(out))
+        mkflux.write_hfe(hp, sides, 40, "FM", version=3)
+        items.append(("hfe3-skip-pair", hp, [["cat"], ["info", "#.*"], ["type", "--binary", "A"], ["dump-sector", "0", "1", "3"], ["sector-map"]]))
         jobs = []
         for tag, path, cmds in items:
             for cmd in (cmds if not quick else cmds[:6]):
@@ -116,6 +149,27 @@ def run(chk, tier, seed):
             return evs
         for evs in common.pmap(do, jobs):
             events += evs
+        # option order: --drive (with an Opus volume letter), --dir and --ui in every order give the same data
+        import itertools
+        opus = next(p for t, p, c in items if t == "opus")
+        optsets = [("--drive", "0B"), ("--dir", "D"), ("--ui", "watford"), ("--verbose",), ("--show-config",)]
+        for cmd in (["cat"], ["info", "#.*"], ["free"], ["type", "--binary", "A"], ["info", "B"]):
+            base = common.run([dfs, "--file", opus, "--drive", "0B", "--dir", "D"] + cmd, timeout=60)
+            basep = discs.parse_cat(base.out, "opus", 68) if cmd[0] == "cat" else None
+            for perm in itertools.permutations(optsets, 3 if quick else 5):
+                if ("--drive", "0B") not in perm or ("--dir", "D") not in perm:
+                    continue
+                argv = [dfs, "--file", opus] + [x for o in perm for x in o] + cmd
+                o = common.run(argv, timeout=60)
+                if cmd[0] == "cat":
+                    ui = "watford" if ("--ui", "watford") in perm else "opus"
+                    pr = discs.parse_cat(o.out, ui, 68)
+                    key = lambda q: None if q is None else [q["title_obs"], q["cycle_obs"], q["opt_obs"], q["dens_obs"], sorted(map(json.dumps, q["shown"]))]
+                    same = key(pr) is not None and key(pr) == key(basep) and o.rc == base.rc
+                else:
+                    same = o.out == base.out and o.rc == base.rc
+                events.append(dict(e="pair", tag="opus-order", cmd=cmd[:2], variant="order:" + " ".join(x[0] for x in perm), same=1 if same else 0,
+                                   rc=base.rc if base.rc is not None else -9, rc2=o.rc if o.rc is not None else -9, clean=1 if o.ok_alphabet() else 0))
         for e in events:
             chk.case((e["tag"], tuple(e["cmd"]), e["variant"]), nontrivial=e["rc"] == 0)
         chk.sample(events[0])
